@@ -126,6 +126,9 @@ func (g *DirectedTargetGraph) GetTargetDependencies(node model.BuildNode) []*mod
 	for _, dependency := range g.GetDependencies(node) {
 		if target, ok := dependency.(*model.Target); ok {
 			targets = append(targets, target)
+		} else if _, isAlias := dependency.(*model.Alias); isAlias {
+			// An alias stands for the target it points to (possibly via further aliases)
+			targets = append(targets, g.GetTargetDependencies(dependency)...)
 		}
 	}
 	return targets
